@@ -22,9 +22,14 @@ type c09Cfg struct {
 	useSep       int
 	useQuote     int
 	alternate    bool // rotate through the configured quote symbols and separators field by field
+	// the tokenizer was configured with these lists and used before it got seps/quotes (reconfiguration)
+	preSeps, preQuotes []rune
 }
 
 func (k c09Cfg) String() string {
+	if k.preSeps != nil {
+		return fmt.Sprintf("tokenizer first configured with separators=%q quotes=%q and used, then separators=%q quotes=%q eol=%q always-quote=%v writer-uses sep %q quote %q", string(k.preSeps), string(k.preQuotes), string(k.seps), string(k.quotes), k.eol, k.always, string(k.seps[k.useSep]), string(k.quotes[k.useQuote]))
+	}
 	return fmt.Sprintf("separators=%q quotes=%q eol=%q always-quote=%v writer-uses sep %q quote %q alternating=%v", string(k.seps), string(k.quotes), k.eol, k.always, string(k.seps[k.useSep]), string(k.quotes[k.useQuote]), k.alternate)
 }
 
@@ -40,12 +45,32 @@ func init() {
 				for _, always := range []bool{false, true} {
 					for us := range s {
 						for uq := range q {
-							c09Configs = append(c09Configs, c09Cfg{s, q, e, always, us, uq, false})
+							c09Configs = append(c09Configs, c09Cfg{seps: s, quotes: q, eol: e, always: always, useSep: us, useQuote: uq})
 							if len(s) > 1 || len(q) > 1 {
-								c09Configs = append(c09Configs, c09Cfg{s, q, e, always, us, uq, true})
+								c09Configs = append(c09Configs, c09Cfg{seps: s, quotes: q, eol: e, always: always, useSep: us, useQuote: uq, alternate: true})
 							}
 						}
 					}
+				}
+			}
+		}
+	}
+}
+
+func init() {
+	// width pump + reconfiguration: lists of 5 and 6 separators / quote symbols, set on a tokenizer that
+	// was configured with a list differing in one (first, last) member and used before
+	type rc struct{ pre, now string }
+	for _, e := range []string{"\n", "\r\n"} {
+		for _, always := range []bool{false, true} {
+			for _, x := range []rc{{",;\t|:", "#;\t|:"}, {"#;\t|:", ",;\t|:"}, {",;\t|:", ",;\t|#"}, {",;\t|:~", "#;\t|:~"}, {";", "#;\t|:"}} {
+				for us := 0; us < len([]rune(x.now)); us += len([]rune(x.now)) - 1 {
+					c09Configs = append(c09Configs, c09Cfg{seps: []rune(x.now), quotes: []rune{'"'}, eol: e, always: always, useSep: us, preSeps: []rune(x.pre), preQuotes: []rune{'"'}})
+				}
+			}
+			for _, x := range []rc{{"\"'”«‹", "»'”«‹"}, {"»'”«‹", "\"'”«‹"}, {"\"'”«‹", "\"'”«›"}} {
+				for uq := 0; uq < len([]rune(x.now)); uq += len([]rune(x.now)) - 1 {
+					c09Configs = append(c09Configs, c09Cfg{seps: []rune{','}, quotes: []rune(x.now), eol: e, always: always, useQuote: uq, preSeps: []rune{','}, preQuotes: []rune(x.pre)})
 				}
 			}
 		}
@@ -107,6 +132,13 @@ func c09Tokenizer(ci int, order int, k c09Cfg, fresh bool) *csv.CsvTokenizer {
 		}
 	}
 	t := csv.NewCsvTokenizer()
+	if k.preSeps != nil {
+		// an earlier configuration, used once
+		t.SetFieldSeparators(k.preSeps)
+		t.SetQuoteSymbols(k.preQuotes)
+		t.SetDecodeStrings(true)
+		fw.Try(func() { t.TokenizeBuffer("a" + string(k.preSeps[0]) + string(k.preQuotes[0]) + "b" + string(k.preQuotes[0]) + "\n") })
+	}
 	// the setters are called in one of four orders (a configuration is a history of setter calls)
 	switch order {
 	case 0:
